@@ -12,6 +12,8 @@ import math
 import os
 import traceback
 
+import numpy as np
+
 from soundevent import data, io
 from soundevent.evaluation import (
     clip_classification,
@@ -469,6 +471,24 @@ def run_case(case):
                 out.fail("order_invariant", {"differs": diffkeys, "a": base["metrics"], "b": s2["metrics"]}, "same metrics and scores", dict(cls, part=diffkeys[0]))
         except Exception as e:  # noqa
             out.fail("order_invariant", "%s: %s" % (type(e).__name__, str(e)[:200]), "same result", dict(cls, part="crash"))
+    # the same evaluation with numpy floating-point errors raised instead of ignored: the result must not depend on the error
+    # state of the calling process (cases with a clip without items, where empty means / 0-by-0 ratios lurk, and every fourth other)
+    if any(len(c) == 0 for c in case["clips"]) or (n_items + len(cas) + k) % 4 == 0:
+        ev4 = err4 = None
+        with np.errstate(all="raise"):
+            try:
+                ev4 = fn(cps, cas, V)
+            except Exception as e:  # noqa
+                err4 = e
+        calls += 1
+        if err4 is not None:
+            out.fail("same_result_with_fp_errors_raised", "%s in %s: %s" % (type(err4).__name__, where_of(err4), str(err4)[:160]),
+                     "same result as with the default numpy error state",
+                     dict(cls, part="crash", exc=type(err4).__name__, where=where_of(err4)))
+        else:
+            s4 = summary(ev4)
+            out.expect("same_result_with_fp_errors_raised", approx_equal(base, s4), {"a": base["metrics"], "b": s4["metrics"]},
+                       "same metrics and scores", dict(cls, part="differs"))
     # AOEF round trip of the evaluation
     path = os.path.join(scratch_dir(), "c09.json")
     try:
